@@ -8,6 +8,6 @@ CONSTANTS
   StopAtBad8 = FALSE
 SPECIFICATION Spec
 VIEW view
-INVARIANTS TypeOK Contained ListAgrees LookupLatest
+INVARIANTS TypeOK Contained ListAgrees LookupLatest RefinesAbstract
 PROPERTIES TornAtomic
 CHECK_DEADLOCK FALSE
